@@ -221,6 +221,8 @@ func runCase(c Case) vh.Result {
 	droppedTotal := 0.0 // sum over generations of dropped_chunks_total
 	var diskAtStart int64 // bytes in the queue directory when the current generation started
 	spill, restartAfterHandback, handbackSeen, armed := false, false, false, false
+	emptied := map[string]bool{} // chunk files emptied by the harness before a restart: corrupt, to be removed and counted as dropped once loaded
+	damaged := false
 
 	overCapacity := false
 	start := func() {
@@ -336,6 +338,8 @@ func runCase(c Case) vh.Result {
 			case confirmed[id] && onDisk:
 				return vh.Fail("buffer:confirmed-file-remains", "chunk %s was confirmed by the consumer but its file is still in the queue directory", id)
 			case confirmed[id]:
+			case onDisk && emptied[id] && len(data) == 0:
+				// the emptied file has not been loaded yet (the consumer never got that far): still pending, as it was found
 			case onDisk:
 				if !bytes.Equal(data, produced[id]) {
 					return vh.Fail("buffer:file-altered", "file of chunk %s has %d bytes, produced %d (or different content)", id, len(data), len(produced[id]))
@@ -403,6 +407,13 @@ func runCase(c Case) vh.Result {
 				// queue is full, or the directory cannot be written. Files leave the directory only when the consumer
 				// confirms (inside this goroutine's operations), so the directory size cannot change under this Accept.
 				checkDrop := !c.BadDir && !overCapacity
+				for victim := range emptied {
+					// an emptied file that is still in the directory may be loaded, found corrupt and counted as dropped at
+					// any moment - also during this Accept; the rule cannot tell the two apart, so it is not applied then
+					if _, err := os.Stat(filepath.Join(qdir, victim)); err == nil {
+						checkDrop = false
+					}
+				}
 				var dirBefore int64
 				var m0 vh.Metrics
 				if checkDrop {
@@ -507,6 +518,29 @@ func runCase(c Case) vh.Result {
 				restartAfterHandback = true
 			}
 			armed = false
+			// damage found at the next start (op.N: 1 = a chunk file emptied, 2 = incomplete ".tmp" copies and other foreign
+			// entries between the chunk files, 3 = both)
+			if op.N > 0 && qdir != "" && !c.BadDir {
+				var names []string
+				for name := range listFiles() {
+					names = append(names, name)
+				}
+				sort.Strings(names)
+				if len(names) > 0 && op.N&1 != 0 {
+					victim := names[(op.Size)%len(names)]
+					if err := os.Truncate(filepath.Join(qdir, victim), 0); err == nil {
+						emptied[victim] = true
+						damaged = true
+					}
+				}
+				if len(names) > 1 && op.N&2 != 0 {
+					// names that sort before, between and after the chunk files; the agent deletes or ignores them
+					_ = os.WriteFile(filepath.Join(qdir, names[0]+util.TempFileSuffix), []byte("unfinished"), 0o644)
+					_ = os.WriteFile(filepath.Join(qdir, names[len(names)/2]+util.TempFileSuffix), nil, 0o644)
+					_ = os.WriteFile(filepath.Join(qdir, "0000-not-a-chunk"), []byte("x"), 0o644)
+					damaged = true
+				}
+			}
 			start()
 		}
 	}
@@ -530,6 +564,9 @@ func runCase(c Case) vh.Result {
 	}
 	if droppedTotal > 0 {
 		res.Classes = append(res.Classes, "dropped-chunks")
+	}
+	if damaged {
+		res.Classes = append(res.Classes, "damage-found-at-a-restart(emptied-file/.tmp-leftovers)")
 	}
 	if c.BadDir && c.BadKind == 1 {
 		res.Classes = append(res.Classes, "directory-cannot-be-opened")
@@ -574,6 +611,9 @@ func genCase(t *rapid.T) Case {
 			op.N = rapid.IntRange(1, 6).Draw(t, "repeat")
 		case "confirm", "hold":
 			op.N = rapid.IntRange(1, 6).Draw(t, "n")
+		case "restart":
+			op.N = rapid.SampledFrom([]int{0, 0, 0, 1, 2, 3}).Draw(t, "damage")
+			op.Size = rapid.IntRange(0, 5).Draw(t, "victim")
 		}
 		if c.BadDir && k == "restart" {
 			// without a directory every pending chunk must be confirmed before shutdown completes (documented sendAllAtEnd
@@ -588,11 +628,20 @@ func genCase(t *rapid.T) Case {
 	return c
 }
 
+// runForProperty: ./check C05 runs this engine as well (recovery order after restarts, with damage in the directory); there
+// only the ordering verdicts are C05's business.
+func runForProperty(c Case) vh.Result {
+	res := runCase(c)
+	if vh.PropertyID == "C05" && res.Violation != nil && res.Violation.Key != "buffer:order" && res.Violation.Key != "buffer:delivered-twice" {
+		res.Violation = nil
+	}
+	return res
+}
+
 func TestC03Buffer(t *testing.T) {
 	vh.Run(t, vh.Spec[Case]{
-		Name: "buffer", Gen: genCase, Run: runCase, Quick: 150, Thorough: 2500, ShrinkSeconds: 10,
-		Rule: "histories over the real hybridbuffer on one directory with BufferMaxNumChunksInMemory in {2,4,8}, BufferMaxNumChunksInQueue in {4,16,64}, maxBufSize from half a chunk to ample: accept (1 B - 64 KB, increasing IDs), consumer take+confirm, take+hold (handed back at its end), stall, stop early, arm (wait until the in-memory window provably holds >= Max/2), destroy+restart, and an unusable queue directory; oracle at every quiescent point (after Destroy): each accepted chunk is confirmed with its file gone, or a byte-identical file, or counted in dropped_chunks_total; nothing delivered twice or altered; delivery in acceptance order with recovered chunks first; files within maxBufSize (+ chunks handed back at shutdown); Accept returns within 20 s; once armed every accepted chunk is unloaded or dropped. Non-trivial = spill to disk and (restart or hand-back)",
+		Name: "buffer", Gen: genCase, Run: runForProperty, Quick: 150, Thorough: 2500, ShrinkSeconds: 10,
+		Rule: "histories over the real hybridbuffer on one directory with BufferMaxNumChunksInMemory in {2,4,8}, BufferMaxNumChunksInQueue in {4,16,64}, maxBufSize from half a chunk to ample: accept (1 B - 64 KB, increasing IDs), consumer take+confirm, take+hold (handed back at its end), stall, stop early, arm (wait until the in-memory window provably holds >= Max/2), destroy+restart (optionally with damage found at the restart: a chunk file emptied, incomplete .tmp copies and foreign entries between the chunk files), and an unusable queue directory; oracle at every quiescent point (after Destroy): each accepted chunk is confirmed with its file gone, or a byte-identical file, or counted in dropped_chunks_total - exactly one of them (an emptied file is removed and counted once it is loaded); nothing delivered twice or altered; delivery in acceptance order with recovered chunks first; files within maxBufSize (+ chunks handed back at shutdown); Accept returns within 20 s; once armed every accepted chunk is unloaded or dropped. Non-trivial = spill to disk and (restart or hand-back)",
 	})
 }
 
-var _ = sort.Strings
